@@ -54,6 +54,11 @@ DEFAULT_MIX = {
 }
 
 
+ACCEPTS = ['text/plain', 'application/xml, text/html;q=0.5',
+           'application/json', '*/*', 'text/plain, application/json;q=0.1',
+           'application/*']
+
+
 class Gen(object):
 
     def __init__(self, rng, n_providers=6, n_consumers=6, mix=None,
@@ -73,6 +78,23 @@ class Gen(object):
         self.max_total = max_total
         self.name_seq = 0
         self.focus_p = None     # restrict provider choices (conc batches)
+        self.custom_traits = list(CUSTOM_TRAITS)
+        if rng.random() < 0.2:
+            # ... so is a name: a trait may be called what a class is called
+            self.custom_traits.append('CUSTOM_RC_A')
+            self.trs = self.trs + ['CUSTOM_RC_A']
+        if rng.random() < 0.12:
+            # ... and an aggregate may carry the uuid of a provider
+            self.A[0] = self.P[0]
+        if rng.random() < 0.25:
+            # external ids are only unique per kind as well: a user may be
+            # called what a project is called
+            self.users[rng.randrange(3)] = self.projects[rng.randrange(3)]
+        if rng.random() < 0.12 and self.P and self.C:
+            # uuids are only unique per kind: a consumer may carry the uuid
+            # of a provider
+            self.C[rng.randrange(len(self.C))] = \
+                self.P[rng.randrange(len(self.P))]
 
     # -- helpers -------------------------------------------------------------
     def pick(self, seq):
@@ -109,6 +131,8 @@ class Gen(object):
 
     def missing_p(self, m):
         return [u for u in self.P if u not in m.providers]
+
+    accept_variants = False     # sequential histories only
 
     roomy = False   # candidate profiles: inventories that usually have room
 
@@ -177,6 +201,16 @@ class Gen(object):
                 if not op.get('defect') and \
                         self.chance(self.invalid_rate * 0.12):
                     self.schema_break(op)
+                if self.accept_variants and self.chance(0.04):
+                    # what the client says it accepts: read routes answer
+                    # 406 when JSON is not acceptable, writes do not look
+                    acc = self.pick(ACCEPTS)
+                    if op['m'] == 'GET' and not M.json_acceptable(acc) and \
+                            m.apply(dict(op)).status != 200:
+                        # one reason for rejection per request: which of
+                        # 404 and 406 wins is nobody's contract
+                        acc = 'application/json'
+                    op['h'] = {'accept': acc}
                 return op
         return self.g_rp_create(m) or self.g_read(m)
 
@@ -278,6 +312,12 @@ class Gen(object):
             return None
         u = self.pick(missing)
         b = {'name': 'rp-%s-%d' % (u[-2:], self.name_seq), 'uuid': u}
+        if self.chance(0.08):
+            # names are free text of up to 200 characters
+            b['name'] = self.pick([
+                u'rp-\u00e9\u4e2d\u6587 %d' % self.name_seq,
+                ('rp-%d-' % self.name_seq).ljust(200, 'x'),
+                'rp %d & co?=/#' % self.name_seq])
         if self.chance(0.1):
             # other spellings of the same uuid; the API stores the canonical
             b['uuid'] = self.pick([u.upper(), u.replace('-', '')])
@@ -329,7 +369,10 @@ class Gen(object):
                 b['name'] = p['name']
                 d = 'loop'
             else:
-                cands = [x for x in ex if x not in m.subtree(u)]
+                # (a batch focus restricts the provider written, not where
+                # it may move)
+                cands = [x for x in self.P if x in m.providers and
+                         x not in m.subtree(u)]
                 if not cands:
                     return None
                 b['parent_provider_uuid'] = self.pick(cands)
@@ -509,14 +552,14 @@ class Gen(object):
                 self.pick(ex), 'v': self.ver('1.6')}
 
     def g_trait_put(self, m):
-        name = self.pick(CUSTOM_TRAITS + ['CUSTOM_TR_C'])
+        name = self.pick(self.custom_traits + ['CUSTOM_TR_C'])
         if self.chance(0.15):
             name = self.pick(['HW_CPU_X86_AVX', 'CUSTOM_lower', 'NOPREFIX',
                               'CUSTOM_' + 'A' * 249])
         return {'m': 'PUT', 'p': '/traits/' + name, 'v': self.ver('1.6')}
 
     def g_trait_delete(self, m):
-        name = self.pick(CUSTOM_TRAITS + ['CUSTOM_TR_C', 'HW_CPU_X86_AVX'])
+        name = self.pick(self.custom_traits + ['CUSTOM_TR_C', 'HW_CPU_X86_AVX'])
         return {'m': 'DELETE', 'p': '/traits/' + name, 'v': self.ver('1.6')}
 
     def g_rc_post(self, m):
@@ -1033,14 +1076,24 @@ class Gen(object):
                     'v': self.ver('1.14')}
         if r == 12:
             name = (m.providers[u]['name'] if u in m.providers else 'zz')
-            return {'m': 'GET', 'p': '/resource_providers?name=' + name,
-                    'v': self.ver()}
+            from urllib.parse import quote
+            return {'m': 'GET', 'p': '/resource_providers?name=' +
+                    quote(name, safe=''), 'v': self.ver()}
         if r == 13:
             q = self.pick(['', '?name=startswith:CUSTOM_',
                            '?name=in:CUSTOM_TR_A,HW_CPU_X86_AVX',
                            '?associated=true',
                            '?name=startswith:CUSTOM&associated=false'])
             return {'m': 'GET', 'p': '/traits' + q, 'v': self.ver('1.6')}
+        if r == 14 and self.chance(0.5):
+            if self.chance(0.5):
+                ts = self.rng.sample(self.trs, self.pick([1, 1, 2]))
+                return {'m': 'GET', 'p': '/resource_providers?required=' +
+                        ','.join(ts), 'v': self.ver('1.18')}
+            ags = self.rng.sample(self.A, self.pick([1, 2]))
+            return {'m': 'GET', 'p': '/resource_providers?member_of=' + (
+                ags[0] if len(ags) == 1 else 'in:' + ','.join(ags)),
+                'v': self.ver('1.3')}
         if r == 14:
             return {'m': 'GET', 'p': '/resource_classes',
                     'v': self.ver('1.2')}
@@ -1055,6 +1108,8 @@ def op_brief(op):
         out['b'] = copy.deepcopy(op['b'])
     if op.get('defect') == 'schema':
         out['defect'] = 'schema'
+    if op.get('h'):
+        out['h'] = dict(op['h'])
     if op.get('w'):
         out['w'] = 1        # served by the second worker process
     return out
